@@ -358,8 +358,16 @@ Definition labels_of_trace (evs : list hevent) : list hlabel :=
   flat_map (fun e => match e with ES => [LStart] | ER => [LReturn] | ET => [LFire; LWake; LWrite] end) evs ++
   (if existsb (fun e => match e with ET => true | _ => false end) evs then [] else [LWake; LWrite]).
 
+(* [k_window]: for a request that was answered, (send, seen) in ns: the wall clock just before the client wrote the
+   request and when it read the reply. The request was received not before [send] and Invoke decided not after [seen].
+   A queue-timeout answer of the model must be possible within that window (InvokeTimeProofs.qt_window_sound): the
+   request's own timeout fits between the two clocks' millisecond readings, or the whole handle timeout does. *)
+Definition qt_window_ok (timeout : Z) (ht : N) (send seen : N) : bool :=
+  ((0 <? timeout)%Z && (timeout <=? Z.of_N (seen / 1000000 - send / 1000000))%Z) ||
+  ((0 <? ht) && (ht * 1000000 <=? seen - send)).
+
 Record c10_req := { k_pkg : hexs; k_queued : N; k_run : hrun; k_alts : list (N * N); k_trace : option (list hevent);
-                    k_counted : bool; k_invoked : N }.
+                    k_window : option (N * N); k_counted : bool; k_invoked : N }.
 Record c10_case := { k_cfg : config; k_reqs : list c10_req; k_obs : list hexs }.
 
 Definition is_disp_err (h : hrun) : bool := match h_res h with HFail DispErr => true | _ => false end.
@@ -397,6 +405,14 @@ Fixpoint c10_consume (cfg : config) (reqs : list c10_req) (obs : list (option ((
             | None => false
             | Some (rs, n) =>
             ((if k_counted k then N.of_nat n else 0) =? k_invoked k) &&
+            (match k_window k with
+             | Some (a, b) => forallb (fun om : origin * reply =>
+                                         match fst om with
+                                         | FromQueueTimeout => qt_window_ok (q_timeout r) (c_ht cfg) a b
+                                         | _ => true
+                                         end) rs
+             | None => true
+             end) &&
             (fix go (rs : list (origin * reply)) (obs : list (option ((bool * reply) * list N))) : bool :=
                match rs with
                | [] => c10_consume cfg rest obs
